@@ -721,6 +721,34 @@ def _slices(ent: Entry) -> int:
     return max(1, min(24, n // 250))
 
 
+def _worked_samples(run: Run):
+    """Three written-out cases of different families (computed here, under the coordinator's TZ=UTC)."""
+    for e in _ENTRIES:
+        if e.kind == "int" and e.adapter_kind == "IntFlag" and e.wire[0] == "S":
+            blk = make_block(e, None)
+            raw = -2
+            pod = e.ser.deserialize(blk, raw, pod=True)
+            run.sample({"family": "int", "key": e.keystr, "wire": e.wire, "raw": raw, "pod": repr(pod), "object": repr(e.ser.deserialize(blk, raw)),
+                        "re-encoded": repr(e.ser.serialize(blk, pod))})
+            break
+    for e in _ENTRIES:
+        if e.kind == "int" and e.ctx_field:
+            ctx = context_values(e, False)
+            blk = make_block(e, ctx[1])
+            run.sample({"family": "int+context", "key": e.keystr, "context": {e.ctx_field: ctx[1]}, "contexts_quick": ctx, "raw": 0x21,
+                        "object": repr(e.ser.deserialize(blk, 0x21)), "pod": repr(e.ser.deserialize(blk, 0x21, pod=True))})
+            break
+    for e in _ENTRIES:
+        if e.kind == "payload" and e.ctx_field and getattr(e.ser, "FLAG_FIELD", None):
+            dom = sg.Domain(False)
+            blk = make_block(e, 7)
+            v, tag = own_values(e, 7, dom)[1]
+            p = e.ser.serialize(blk, v)
+            run.sample({"family": "payload+context", "key": e.keystr, "context": {e.ctx_field: 7}, "variant": tag, "value": repr(v), "payload": p,
+                        "pod": repr(e.ser.deserialize(blk, p, pod=True))})
+            break
+
+
 def run(run: Run):
     _setup(run.tier == "thorough")
     ents = _ENTRIES
@@ -737,6 +765,7 @@ def run(run: Run):
         if e.kind in ("int", "payload"):
             units.append(("cache", e.idx))
     order = heavy + units
+    _worked_samples(run)
     for d in pmap(_work, order, run.jobs, chunksize=1):
         run.merge(d)
     dates = [e for e in ents if e.kind == "int" and e.is_date]
